@@ -28,6 +28,14 @@ INSPECT = [
     ["log"], ["log", "p0"], ["log", "-n", "2"], ["log", "--full"], ["log", "nope"],
     ["export", "--stdout"], ["export", "--stdout", "p0..p1"], ["export", "--stdout", "nope"],
     ["branch", "--list"], ["branch"], ["version"], ["help"], ["--version"], ["series", "--help"],
+    # branch-qualified revisions and -b options naming a branch that plain git made (`other` in most
+    # states, `orphan` in all) or that has a stack (`other` in uninit-other, `copy` in cloned)
+    ["show", "other:{base}"], ["files", "other:{base}"], ["diff", "-r", "other:{base}"], ["id", "other:{base}"],
+    ["show", "other:nope"], ["show", "other:p0"], ["diff", "-r", "other:p0..p1"], ["id", "other:p1"],
+    ["show", "orphan:{base}"], ["files", "orphan:{base}"], ["diff", "-r", "orphan:{base}"], ["id", "orphan:nope"],
+    ["series", "-b", "orphan"], ["log", "-b", "orphan"], ["top", "-b", "orphan"], ["export", "--stdout", "-b", "other"],
+    ["patches", "-b", "orphan"], ["files", "-b", "other", "p0"], ["show", "-b", "orphan", "p0"],
+    ["show", "copy:p0"], ["diff", "-r", "copy:{base}..copy:p1"],
 ]
 
 
